@@ -33,7 +33,8 @@ Record its := {
   i_tms : list (bytes * bytes);                     (* token id -> token manager address *)
   i_locks : list ((bytes * bytes) * N);             (* transfer_with_data_lock(source chain, message id) *)
   i_approvals : list (bytes * bytes);               (* approved_destination_minters(key) *)
-  i_roles : list (bytes * N)
+  i_roles : list (bytes * N);
+  i_proposed : list ((bytes * bytes) * N)           (* proposed_roles(from, to) *)
 }.
 
 Inductive ipkind :=
@@ -59,13 +60,19 @@ Definition iroles (s : its) (a : bytes) : N := match alookup bytes_eqb a (i_role
 
 Definition iupd (s : its) paused trusted_ tms locks approvals roles : its :=
   {| i_gateway := i_gateway s; i_gas := i_gas s; i_tm_impl := i_tm_impl s; i_chain := i_chain s; i_chain_hash := i_chain_hash s;
-     i_paused := paused; i_trusted := trusted_; i_tms := tms; i_locks := locks; i_approvals := approvals; i_roles := roles |}.
+     i_paused := paused; i_trusted := trusted_; i_tms := tms; i_locks := locks; i_approvals := approvals; i_roles := roles; i_proposed := i_proposed s |}.
 Definition set_paused s b := iupd s b (i_trusted s) (i_tms s) (i_locks s) (i_approvals s) (i_roles s).
 Definition set_trusted s c a := iupd s (i_paused s) (aset bytes_eqb c a (i_trusted s)) (i_tms s) (i_locks s) (i_approvals s) (i_roles s).
 Definition set_tm s id a := iupd s (i_paused s) (i_trusted s) (aset bytes_eqb id a (i_tms s)) (i_locks s) (i_approvals s) (i_roles s).
 Definition set_lock s c i v := iupd s (i_paused s) (i_trusted s) (i_tms s) (aset pair_eqb (c, i) v (i_locks s)) (i_approvals s) (i_roles s).
 Definition set_approval s k v := iupd s (i_paused s) (i_trusted s) (i_tms s) (i_locks s) (aset bytes_eqb k v (i_approvals s)) (i_roles s).
 Definition set_iroles s a r := iupd s (i_paused s) (i_trusted s) (i_tms s) (i_locks s) (i_approvals s) (aset bytes_eqb a r (i_roles s)).
+
+Definition set_iproposed (s : its) (f t : bytes) (r : N) : its :=
+  {| i_gateway := i_gateway s; i_gas := i_gas s; i_tm_impl := i_tm_impl s; i_chain := i_chain s; i_chain_hash := i_chain_hash s;
+     i_paused := i_paused s; i_trusted := i_trusted s; i_tms := i_tms s; i_locks := i_locks s; i_approvals := i_approvals s; i_roles := i_roles s;
+     i_proposed := aset pair_eqb (f, t) r (i_proposed s) |}.
+Definition iproposed (s : its) (f t : bytes) : N := match alookup pair_eqb (f, t) (i_proposed s) with Some r => r | None => 0 end.
 
 Definition wset (w : iworld) gw_ its_ tms led pend nxt : iworld :=
   {| iw_gw := gw_; iw_its := its_; iw_tms := tms; iw_led := led; iw_pend := pend; iw_next := nxt |}.
@@ -631,6 +638,24 @@ Section WithHash.
     let s1 := set_iroles s (ic_caller c) (N.ldiff (iroles s (ic_caller c)) OPERATOR) in
     Some (w_its w (set_iroles s1 a (N.lor (iroles s1 a) OPERATOR)), []).
 
+  (* proposeOperatorship / acceptOperatorship of the service itself (modules/operatable) *)
+  Definition its_propose_operatorship (w : iworld) (c : ictx) (a : bytes) : ires :=
+    if negb (has_no_value (ic_value c)) || negb (Nat.eqb (length a) 32) then None else
+    let s := iw_its w in
+    if negb (intersects (iroles s (ic_caller c)) OPERATOR) then None else
+    if negb (contains (iroles s (ic_caller c)) OPERATOR) then None else
+    Some (w_its w (set_iproposed s (ic_caller c) a OPERATOR), []).
+
+  Definition its_accept_operatorship (w : iworld) (c : ictx) (from : bytes) : ires :=
+    if negb (has_no_value (ic_value c)) || negb (Nat.eqb (length from) 32) then None else
+    let s := iw_its w in
+    let p := iproposed s from (ic_caller c) in
+    if (p =? 0) || negb (p =? OPERATOR) then None else
+    let s0 := set_iproposed s from (ic_caller c) 0 in
+    if negb (contains (iroles s0 from) OPERATOR) then None else
+    let s1 := set_iroles s0 from (N.ldiff (iroles s0 from) OPERATOR) in
+    Some (w_its w (set_iroles s1 (ic_caller c) (N.lor (iroles s1 (ic_caller c)) OPERATOR)), []).
+
   (* ---------- asynchronous steps ---------- *)
   (* callback of a transfer-with-data promise *)
   Definition transfer_callback (w : iworld) (c : ictx) (chain id src ph token_id tok : bytes) (amount : N) (ok : bool) : ires :=
@@ -703,6 +728,8 @@ Section WithHash.
   | IRemoveTrusted (c : ictx) (chain : bytes)
   | IPause (c : ictx) (b : bool)
   | ITransferOp (c : ictx) (a : bytes)
+  | IProposeOp (c : ictx) (a : bytes)
+  | IAcceptOp (c : ictx) (from : bytes)
   | ITm (tma : bytes) (o : top)                                       (* direct call of a user into a token manager *)
   | IDeliver (self : bytes) (id : N) (ok : bool)                       (* destination call of a transfer-with-data promise *)
   | ICallback (c : ictx) (id : N)                                      (* its callback *)
@@ -756,6 +783,8 @@ Section WithHash.
     | IRemoveTrusted c ch => itx w c (fun w1 => norets (remove_trusted_address w1 c ch))
     | IPause c b => itx w c (fun w1 => norets (pause_ep w1 c b))
     | ITransferOp c a => itx w c (fun w1 => norets (its_transfer_operatorship w1 c a))
+    | IProposeOp c a => itx w c (fun w1 => norets (its_propose_operatorship w1 c a))
+    | IAcceptOp c from => itx w c (fun w1 => norets (its_accept_operatorship w1 c from))
     | ITm tma o =>
         match get_tm w tma with
         | Some t =>
@@ -843,5 +872,6 @@ Section WithHash.
     ++ flat_map (fun '(i, a) => nzk (str "token_manager_address" ++ i) a) (i_tms s)
     ++ flat_map (fun '((c, i), v) => nzk (str "transfer_with_data_lock" ++ enc_buf c ++ enc_buf i) (be_min v)) (i_locks s)
     ++ flat_map (fun '(k, v) => nzk (str "approved_destination_minters" ++ k) v) (i_approvals s)
-    ++ flat_map (fun '(a, r) => nzk (str "account_roles" ++ a) (be_min r)) (i_roles s).
+    ++ flat_map (fun '(a, r) => nzk (str "account_roles" ++ a) (be_min r)) (i_roles s)
+    ++ flat_map (fun '((f, t), r) => nzk (str "proposed_roles" ++ f ++ t) (be_min r)) (i_proposed s).
 End WithHash.
